@@ -41,7 +41,7 @@ ASSUMPTIONS = [
 ]
 CLASSES = ["conserve/whfast", "conserve/saba", "conserve/eos", "conserve/leapfrog", "conserve/janus", "conserve/ias15",
            "conserve/bs", "conserve/mercurius", "conserve/trace", "conserve/deferred_sync", "conserve/boost",
-           "conserve/backward", "conserve/gravity=compensated", "merge/mergers=0", "merge/mergers=1", "merge/mergers=2", "merge/mergers>=3",
+           "conserve/backward", "conserve/janus_unequal_scales", "conserve/gravity=compensated", "merge/mergers=0", "merge/mergers=1", "merge/mergers=2", "merge/mergers>=3",
            "diagnostics/zero_mass", "diagnostics/all_massless", "mirror/ias15", "mirror/bs", "mirror/bitwise_mirror"]
 
 EPS = 2.0 ** -52
@@ -323,6 +323,8 @@ ANY_CFG = st.one_of(S.integrator_config(), S.integrator_config(), whfast_by_coor
 
 # gravity routine, where the integrator leaves the choice to the user (docs/gravity.md): set after the integrator
 GRAVITY = st.sampled_from(["basic", "basic", "compensated"])
+# JANUS grid spacings (both documented options), drawn independently; int64 * 1e-16 still covers |x|, |v| < 922
+JANUS_SCALES = st.tuples(st.sampled_from([1e-16, 1e-15, 1e-14]), st.sampled_from([1e-16, 1e-15, 1e-14]))
 
 
 def gravity_is_users_choice(cfg):
@@ -336,15 +338,15 @@ def gravity_is_users_choice(cfg):
 conserve_case = st.one_of(
     st.fixed_dictionaries({
         "system": S.hierarchical_system(nmin=2, nmax=5), "cfg": ANY_CFG,
-        "dt_frac": S.logfloats(2e-3, 0.05), "back": st.booleans(), "boost": boost, "gravity": GRAVITY,
+        "dt_frac": S.logfloats(2e-3, 0.05), "back": st.booleans(), "boost": boost, "gravity": GRAVITY, "janus_scales": JANUS_SCALES,
         "ops": st.lists(op, min_size=3, max_size=8)}),
     st.fixed_dictionaries({
         "system": S.hierarchical_system(nmin=3, nmax=5), "cfg": ANY_CFG,
-        "dt_frac": S.logfloats(2e-3, 0.05), "back": st.booleans(), "boost": boost, "gravity": GRAVITY,
+        "dt_frac": S.logfloats(2e-3, 0.05), "back": st.booleans(), "boost": boost, "gravity": GRAVITY, "janus_scales": JANUS_SCALES,
         "ops": st.lists(op, min_size=3, max_size=8)}),
     st.fixed_dictionaries({
         "system": jacobi_few_body(), "cfg": S.integrator_config(NON_WH),
-        "dt_frac": S.logfloats(2e-3, 0.03), "back": st.booleans(), "boost": boost, "gravity": GRAVITY,
+        "dt_frac": S.logfloats(2e-3, 0.03), "back": st.booleans(), "boost": boost, "gravity": GRAVITY, "janus_scales": JANUS_SCALES,
         "ops": st.lists(op, min_size=3, max_size=8)}),
 )
 
@@ -361,6 +363,13 @@ def run_conserve(case, ctx):
     sysd = case["system"]
     cfg = case["cfg"]
     fam = cfg["family"]
+    if fam == "janus" and case.get("janus_scales"):
+        sp, sv = case["janus_scales"]
+        cfg = dict(cfg, set=[[k, v] for k, v in cfg["set"] if k not in ("ri_janus.scale_pos", "ri_janus.scale_vel")]
+                   + [["ri_janus.scale_pos", sp], ["ri_janus.scale_vel", sv]])
+        case = dict(case, cfg=cfg)
+        if sp != sv:
+            ctx.cls("janus_unequal_scales")
     bst = usable_boost(case, ctx)
     sim = rb.new_sim({"G": sysd["G"], "particles": boosted(sysd["particles"], bst, sysd["P_min"])})
     apply_cfg(sim, cfg)
